@@ -303,3 +303,27 @@ def sweep(r, callback=None):
         r.axial_step(z, dz, i)
         if callback:
             callback(i, z, dz)
+
+
+def add_axial_regions(rng, case, tname, lower=True, upper=True, models=('simple', '6node')):
+    """Unrodded regions below / above the pin bundle of assembly type `tname`."""
+    L = case['core']['length']
+    t = case['types'][tname]
+    regs = []
+    z1 = round(L * rng.uniform(0.15, 0.35), 4)
+    z2 = round(L * rng.uniform(0.65, 0.85), 4)
+    if lower:
+        regs.append(dict(name='lower', z_lo=0.0, z_hi=z1, vf_coolant=round(rng.uniform(0.2, 0.6), 3),
+                         model=rng.choice(models), convection_factor=round(rng.choice([1.0, rng.uniform(0.2, 1.0)]), 4)))
+    if upper:
+        regs.append(dict(name='upper', z_lo=z2, z_hi=L, vf_coolant=round(rng.uniform(0.2, 0.6), 3),
+                         model=rng.choice(models), convection_factor=round(rng.choice([1.0, rng.uniform(0.2, 1.0)]), 4)))
+    t['AxialRegion'] = regs
+    return (z1 if lower else 0.0, z2 if upper else L)
+
+
+def make_low_fidelity(rng, case, tname, model=None, factor=None):
+    t = case['types'][tname]
+    t['use_low_fidelity_model'] = True
+    t['low_fidelity_model'] = model or rng.choice(['simple', '6node'])
+    t['convection_factor'] = factor if factor is not None else rng.choice(['calculate', round(rng.uniform(0.2, 1.0), 4), 1.0])
